@@ -38,7 +38,8 @@ _num_hashes(num_hashes),
 _num_buckets(num_buckets),
 _sketch_array((static_cast<uint64_t>(num_hashes)*num_buckets < 1<<30) ? num_hashes*num_buckets : 0, 0, _allocator),
 _seed(seed),
-_total_weight(0) {
+_total_weight(0),
+hash_seeds(_allocator) {
   if (num_buckets < 3) throw std::invalid_argument("Using fewer than 3 buckets incurs relative error greater than 1.");
 
   // This check is to ensure later compatibility with a Java implementation whose maximum size can only
@@ -108,7 +109,7 @@ uint8_t count_min_sketch<W,A>::suggest_num_hashes(double confidence) {
 }
 
 template<typename W, typename A>
-std::vector<uint64_t> count_min_sketch<W,A>::get_hashes(const void* item, size_t size) const {
+auto count_min_sketch<W,A>::get_hashes(const void* item, size_t size) const -> vector_u64 {
   /*
    * Returns the hash locations for the input item using the original hashing
    * scheme from [1].
@@ -124,7 +125,7 @@ std::vector<uint64_t> count_min_sketch<W,A>::get_hashes(const void* item, size_t
    * https://www.eecs.harvard.edu/~michaelm/postscripts/tr-02-05.pdf
    */
   uint64_t bucket_index;
-  std::vector<uint64_t> sketch_update_locations;
+  vector_u64 sketch_update_locations(_allocator);
   sketch_update_locations.reserve(_num_hashes);
 
   uint64_t hash_seed_index = 0;
@@ -156,8 +157,8 @@ W count_min_sketch<W,A>::get_estimate(const void* item, size_t size) const {
   /*
    * Returns the estimated frequency of the item
    */
-  std::vector<uint64_t> hash_locations = get_hashes(item, size);
-  std::vector<W> estimates;
+  vector_u64 hash_locations = get_hashes(item, size);
+  std::vector<W, A> estimates(_allocator);
   for (const auto h: hash_locations) {
     estimates.push_back(_sketch_array[h]);
   }
@@ -187,7 +188,7 @@ void count_min_sketch<W,A>::update(const void* item, size_t size, W weight) {
    * locations by the weight.
    */
   _total_weight += weight >= 0 ? weight : -weight;
-  std::vector<uint64_t> hash_locations = get_hashes(item, size);
+  vector_u64 hash_locations = get_hashes(item, size);
   for (const auto h: hash_locations) {
     _sketch_array[h] += weight;
   }
